@@ -83,7 +83,7 @@ def paired_reverse_complementer_call(c):
                distinct="r1.__id__ != r2.__id__",
                **_cut_pre(1, "r1"), **_cut_pre(2, "r2"))
     c.ghost("g_r1_trimmed = r1_trimmed\ng_r2_trimmed = r2_trimmed\ng_r1_matches = r1_matches\ng_r2_matches = r2_matches",
-            before="use_reverse_complement = bool(r1_matches_swapped or r2_matches_swapped) and swapped_score > unswapped_score")
+            before="if use_reverse_complement:")
     c.loop(1, head="for match in r1_matches", inv=[
         "0 <= __k1 <= len(r1_matches)",
         "self.reverse_complemented == old(self.reverse_complemented) + (1 if use_reverse_complement else 0)"])
